@@ -34,7 +34,10 @@ const DEPRECATED_SITES: [(&str, &str); 10] = [
     ("dictionary-value-in-parameter", "{FILE}module M\n[deprecated] custom D\n{SIB}struct Sib { x: int32 }\n{ENC}interface Host {\n    {ENC2}op(\n        {ELEM}p: Dictionary<string, D>\n    )\n}\n"),
 ];
 
-const DOC_SITES: [(&str, &str); 9] = [
+const DOC_SITES: [(&str, &str); 12] = [
+    ("operation-returns-nothing", "{FILE}module M\n{SIB}struct Sib { x: int32 }\n{ENC}interface Host {\n    {DOC}{ELEM}op(a: int32)\n}\n"),
+    ("operation-single-return", "{FILE}module M\n{SIB}struct Sib { x: int32 }\n{ENC}interface Host {\n    {DOC}{ELEM}op() -> int32\n}\n"),
+    ("operation-tuple-return", "{FILE}module M\n{SIB}struct Sib { x: int32 }\n{ENC}interface Host {\n    {DOC}{ELEM}op() -> (a: int32, b: bool)\n}\n"),
     ("struct", "{FILE}module M\n{SIB}struct Sib { x: int32 }\n{DOC}{ELEM}struct Host {}\n"),
     ("field", "{FILE}module M\n{SIB}struct Sib { x: int32 }\n{ENC}struct Host {\n    {DOC}{ELEM}f: int32\n}\n"),
     ("interface", "{FILE}module M\n{SIB}struct Sib { x: int32 }\n{DOC}{ELEM}interface Host {}\n"),
@@ -47,20 +50,21 @@ const DOC_SITES: [(&str, &str); 9] = [
 ];
 
 const PLACEMENTS: [&str; 9] = ["none", "cli", "cli-wrong-case", "file", "enclosing", "enclosing-inner", "element", "sibling", "other-file"];
-const ARGUMENTS: [&str; 5] = ["that", "All", "other", "that+other", "other+All"];
+const ARGUMENTS: [&str; 7] = ["that", "All", "other", "that+other", "other+All", "two-attributes-other-then-that", "two-attributes-that-then-other"];
 
 fn doc_line(lint: &str, site: &str) -> &'static str {
     match lint {
         "BrokenDocLink" => "/// See {@link Nowhere}.\n",
         "MalformedDocComment" => "/// @foo is no tag\n",
         // a tag that does not fit: @returns on something that returns nothing / is no operation
-        "IncorrectDocComment" => {
-            if site == "operation" {
-                "/// @param nosuch: text\n"
-            } else {
-                "/// @returns: text\n"
-            }
-        }
+        "IncorrectDocComment" => match site {
+            "operation" => "/// @param nosuch: text\n",
+            "operation-returns-nothing" => "/// @returns: text\n",
+            "operation-single-return" => "/// @returns named: text\n",
+            "operation-tuple-return" => "/// @returns nosuch: text\n",
+            "struct" | "enum" => "/// @param x: text\n",
+            _ => "/// @returns: text\n",
+        },
         _ => "",
     }
 }
@@ -71,7 +75,7 @@ fn arg_list(arg: &str, lint: &str) -> Vec<String> {
         "that" => vec![lint.to_owned()],
         "All" => vec!["All".to_owned()],
         "other" => vec![other.to_owned()],
-        "that+other" => vec![lint.to_owned(), other.to_owned()],
+        "that+other" | "two-attributes-other-then-that" | "two-attributes-that-then-other" => vec![other.to_owned(), lint.to_owned()],
         _ => vec![other.to_owned(), "All".to_owned()],
     }
 }
@@ -88,20 +92,33 @@ struct Cell {
     cli: Vec<String>,
     expect_silenced: bool,
     applicable: bool,
+    decoy: bool,
 }
 
 fn cell(mut idx: u64) -> Cell {
     let lint = LINTS[(idx % 4) as usize];
     idx /= 4;
     let sites: &[(&str, &str)] = if lint == "Deprecated" { &DEPRECATED_SITES } else { &DOC_SITES };
-    let (site, template) = sites[(idx % 10) as usize % sites.len()];
-    idx /= 10;
+    let (site, template) = sites[(idx % 12) as usize % sites.len()];
+    idx /= 12;
     let placement = PLACEMENTS[(idx % 9) as usize];
     idx /= 9;
-    let argument = ARGUMENTS[(idx % 5) as usize];
+    let argument = ARGUMENTS[(idx % 7) as usize];
+    idx /= 7;
+    let decoy = idx % 2 == 1;
     let args = arg_list(argument, lint);
-    let attr = format!("[allow({})] ", args.join(", "));
-    let file_attr = format!("[[allow({})]]\n", args.join(", "));
+    let other_lint = if lint == "Deprecated" { "BrokenDocLink" } else { "Deprecated" };
+    let (attr, file_attr) = match argument {
+        "two-attributes-other-then-that" => (
+            format!("[allow({other_lint})] [allow({lint})] "),
+            format!("[[allow({other_lint})]]\n[[allow({lint})]]\n"),
+        ),
+        "two-attributes-that-then-other" => (
+            format!("[allow({lint})] [allow({other_lint})] "),
+            format!("[[allow({lint})]]\n[[allow({other_lint})]]\n"),
+        ),
+        _ => (format!("[allow({})] ", args.join(", ")), format!("[[allow({})]]\n", args.join(", "))),
+    };
     let names = args.iter().any(|a| a == lint || a == "All");
     let has = |slot: &str| template.contains(slot);
     let mut applicable = true;
@@ -141,6 +158,14 @@ fn cell(mut idx: u64) -> Cell {
         "sibling" => sib = attr.clone(),
         _ => other_file = format!("{file_attr}{other_file}"),
     }
+    if decoy {
+        // an `allow` that names another lint sits closer to the site than the real suppression
+        if matches!(placement, "file" | "enclosing" | "enclosing-inner" | "cli") && elem.is_empty() {
+            elem = format!("[allow({other_lint})] ");
+        } else {
+            applicable = false;
+        }
+    }
     let doc = doc_line(lint, site);
     let fill = |f: &str, sib: &str, enc: &str, enc2: &str, elem: &str| -> String {
         template
@@ -157,16 +182,17 @@ fn cell(mut idx: u64) -> Cell {
         placement,
         argument,
         text: fill(&f, &sib, &enc, &enc2, &elem),
-        baseline: fill("", "", "", "", ""),
+        baseline: fill("", "", "", "", if decoy { &elem } else { "" }),
         other_file,
         other_baseline,
         cli,
         expect_silenced: in_scope && names,
         applicable,
+        decoy,
     }
 }
 
-const MATRIX_TOTAL: u64 = 4 * 10 * 9 * 5;
+const MATRIX_TOTAL: u64 = 4 * 12 * 9 * 7 * 2;
 
 fn options_with(cli: &[String]) -> SliceOptions {
     SliceOptions {
@@ -190,6 +216,7 @@ fn matrix_case(cx: &mut CaseCtx, input: Input) -> CaseResult {
     cx.label(format!("placement:{}", c.placement));
     cx.label(format!("site:{}:{}", if c.lint == "Deprecated" { "deprecated" } else { "doc" }, c.site));
     cx.label(format!("argument:{}", c.argument));
+    cx.label_if(c.decoy, "decoy-allow-closer-to-the-site");
     cx.sample_with(|| json!({"file": c.text, "other_file": c.other_file, "allow_on_command_line": c.cli, "expect_silenced": c.expect_silenced}));
     let src = format!("{}\n=====\n{}", c.text, c.other_file);
     // with the suppression
@@ -428,6 +455,10 @@ impl Check for C13 {
             "placement:element",
             "placement:sibling",
             "placement:other-file",
+            "argument:two-attributes-other-then-that",
+            "decoy-allow-closer-to-the-site",
+            "site:doc:operation-tuple-return",
+            "site:doc:operation-single-return",
             "error-with-allow-all",
             "duplicate-file-warned",
             "duplicate-file-silenced",
